@@ -175,8 +175,14 @@ def check_equiv(A, B, timeout_ms=10000, kind="equiv"):
         if not dis:
             return Result("equal", "all observables syntactically identical after simplification",
                           seconds=time.time() - t0, stage=stage)
-        verdict, model = solve(ctx.assumptions + ctx.side + [z3.Or(*[f for _, f in dis])], timeout_ms, STATS,
-                               kind + ":" + stage)
+        goal = ctx.assumptions + ctx.side + [z3.Or(*[f for _, f in dis])]
+        verdict, model = solve(goal, min(timeout_ms, 3000), STATS, kind + ":" + stage, portfolio=False)
+        if verdict == "unknown" and not abstract and ctx.shift_amounts:
+            r = _case_split(ctx, dis, A, B, n, timeout_ms, kind, t0)
+            if r is not None:
+                return r
+        if verdict == "unknown" and not abstract and timeout_ms > 3000:
+            verdict, model = solve(goal, timeout_ms, STATS, kind + ":" + stage + ":long")
         if verdict == "unsat":
             return Result("equal", "unsat (%s)" % stage, seconds=time.time() - t0, stage=stage)
         if verdict == "sat":
@@ -205,6 +211,27 @@ def check_equiv(A, B, timeout_ms=10000, kind="equiv"):
         if not abstract:
             return Result("unknown", "solver: " + verdict, seconds=time.time() - t0, stage=stage)
     return Result("unknown", "no verdict", seconds=time.time() - t0)
+
+
+def _case_split(ctx, dis, A, B, n, timeout_ms, kind, t0):
+    """257-way case split on a symbolic shift amount (0..255 individually, >= 256 together): MUL/DIV by 1<<Y
+    against X<<Y / X>>Y is out of reach as one bit-vector query but each case is decided instantly"""
+    t = ctx.shift_amounts[0]
+    base = ctx.assumptions + ctx.side + [z3.Or(*[f for _, f in dis])]
+    cases = [t == E.BV(k) for k in range(256)] + [z3.UGE(t, E.BV(256))]
+    per = max(2000, timeout_ms // 8)
+    for c in cases:
+        verdict, model = solve(base + [c], per, STATS, kind + ":shift-case", portfolio=False)
+        if verdict == "unsat":
+            continue
+        if verdict == "sat":
+            labels = [l for l, f in dis if z3.is_true(model.eval(f, model_completion=True))]
+            diff, log, err = replay_model(ctx, model, A, B, n)
+            if err or diff is None:
+                return None
+            return Result("different", "; ".join(labels), log, diff, time.time() - t0, "precise/shift-case")
+        return None
+    return Result("equal", "unsat in all 257 shift-amount cases", seconds=time.time() - t0, stage="precise/shift-case")
 
 
 def concrete_difference(A, B, state):
